@@ -14,10 +14,23 @@ def workdir(sub=None):
 
 
 def scratch(pid):
-    """A fresh scratch directory for one run of a check.  Runs against different trees (VERIF_REPO: the scratch
-    worktrees of bin/seedtest) get different directories, so that they can run side by side."""
+    """A fresh scratch directory for one run of a check.  Every run has its own (the process id is part of the
+    name), so that runs of the same check -- against different trees (VERIF_REPO: the scratch worktrees of
+    bin/seedtest), from different copies of /verif, in different tiers -- can go on side by side; the directories
+    that earlier runs of this check left behind are removed unless their process is still alive."""
     tag = "" if REPO == "/repo" else "-" + hashlib.sha1(REPO.encode()).hexdigest()[:8]
-    d = workdir("run-" + pid + tag)
+    base = "run-" + pid + tag
+    import glob
+    shutil.rmtree(os.path.join(workdir(), base), ignore_errors=True)   # the name used before runs had directories of their own
+    for old in glob.glob(os.path.join(workdir(), base + "-p[0-9]*")):
+        try:
+            owner = int(old.rsplit("-p", 1)[1])
+            os.kill(owner, 0)                                   # alive: leave it alone
+        except (ValueError, ProcessLookupError):
+            shutil.rmtree(old, ignore_errors=True)
+        except PermissionError:
+            pass
+    d = workdir("%s-p%d" % (base, os.getpid()))
     shutil.rmtree(d, ignore_errors=True)
     os.makedirs(d)
     return d
